@@ -13,6 +13,9 @@ import sys
 from concurrent.futures import ProcessPoolExecutor
 from functools import partial
 
+from vlib import runner as _runner_mod
+runner = _runner_mod
+
 LEVEL = "exploration"
 
 
@@ -368,6 +371,31 @@ def run(chk, scratch):
         for name, a, r in tests["violations"]:
             chk.violation(name + ":under-repo-tests", "contract on %s fired under the repository's own tests: args=%s result=%s" % (name, a, r),
                           {"function": name, "args": a, "result": r})
+    # (c) passively inside real pipeline runs: the contracts are switched on in the launcher
+    from vlib import pipeline, world2
+    pl_counts = {}
+    for wi in range(3 if thorough else 0):      # thorough tier only: icontract on the hot primitives slows a run ~20x
+        d = os.path.join(scratch, "pl%d" % wi)
+        w = world2.rich_world(chk.seed * 7 + wi, n_chroms=2, genes_per_chrom=2 if not thorough else 3, reads_per_t=1 if not thorough else 4, hidden_cov=2, multimappers=thorough)
+        pipeline.write_world(w, d)
+        ev = os.path.join(d, "ev")
+        r = pipeline.run(d, os.path.join(d, "out"), threads=2, extra=["--count_exons"], mon=["c19"], events=ev)
+        if r["rc"] is None:
+            chk.inconclusive.append("watchdog expired in the pipeline run with contracts on")
+            continue
+        last = {}
+        for e in runner.load_events(ev):
+            if e["k"] == "c19":
+                last[e["pid"]] = e
+        for e in last.values():
+            for k, v in e["counts"].items():
+                pl_counts[k] = pl_counts.get(k, 0) + v
+            for name, a, rr in e["violations"]:
+                chk.violation(name + ":in-pipeline", "contract on %s fired inside a pipeline run: args=%s result=%s" % (name, a, rr),
+                              {"function": name, "args": a, "result": rr})
+        if r["rc"] != 0 and not last:
+            chk.violation("pipeline-run-with-contracts-failed", pipeline.fail_text(r), None)
+    chk.extra["pipeline_runs_with_contracts"] = pl_counts
     chk.extra.update({"contract_evaluations_per_function": counts, "input_shape_classes": shapes,
                       "nontrivial_inputs": nontriv, "exhaustive": True})
     chk.assumptions = ["oracles = explicit sets of positions (vlib/contracts19.py)",
